@@ -264,6 +264,31 @@ def tr_dead(ctx):
         out.append(bad('TR-dead', 'enter', 'no transition into Panicked exists any more'))
     if n < 1:
         out.append(undecided('TR-dead', 'floor', 'no site observes Panicked at all'))
+    # ... and only the unwinding guard enters it: any other write of Panicked kills a healthy queue
+    enters = sorted(set(fname for (fname, s, s2, role) in transitions(ctx) if s2 == 'Panicked' and s != s2 and not fname.startswith(AQ_DROP)))
+    for fname in enters:
+        out.append(bad('TR-dead', '%s|enters-Panicked' % short(fname), 'the queue is marked Panicked outside ActiveQueue::drop: no operation panicked, yet every later operation on the object is refused', fn=fname))
+    if not enters:
+        out.append(ok('TR-dead', 'enters-Panicked', 'only ActiveQueue::drop marks a queue Panicked'))
+    return out
+
+
+def tr_roles(ctx):
+    """Who may write what: the parked states are written only by the runner that parks (an owner write); a thread that does not own
+    the queue never parks it."""
+    from .proto import PARKED
+    out = _problems(ctx, 'TR-roles')
+    n = 0
+    for (fname, s, s2, role) in sorted(transitions(ctx)):
+        if s2 in PARKED and s != s2:
+            n += 1
+            key = '%s|%s->%s' % (short(fname), s, s2)
+            if role == 'owner':
+                out.append(ok('TR-roles', key, 'parked by its runner', fn=fname))
+            else:
+                out.append(bad('TR-roles', key, 'a thread that does not own the queue moves it to %s: nothing is suspended, so no waker will ever resume the queue and everything queued on it is stranded' % s2, fn=fname))
+    if n < 3:
+        out.append(undecided('TR-roles', 'floor', 'found %d parking transitions, expected at least 3' % n))
     return out
 
 
@@ -531,6 +556,17 @@ def park_wake(ctx):
                 out.append(ok('PARK-wake', key, 'calls %s on every path that found the queue in %s' % (what, st), fn=fname))
             else:
                 out.append(bad('PARK-wake', key, 'a path that finds the queue parked in %s returns without calling %s: the wake-up is dropped and nobody resumes the queue' % (st, what), fn=fname))
+    # whoever takes a queue out of a parked state owes the matching resume action, whatever function it is
+    owes = {('WaitingForUnpark', 'Running'): (2, 'Thread::unpark'), ('WaitingForWake', 'Idle'): (1, 'reschedule_queue')}
+    for (fname, s, s2, role) in sorted(transitions(ctx)):
+        if (s, s2) in owes and role != 'owner' and fname not in need:
+            bit, what = owes[(s, s2)]
+            rows = [(pre, act) for (pre, act) in acts.get(fname, set()) if pre is not None and s in pre]
+            key = '%s|%s->%s' % (short(fname), s, s2)
+            if rows and all(act & bit for (pre, act) in rows):
+                out.append(ok('PARK-wake', key, 'calls %s on every such path' % what, fn=fname))
+            else:
+                out.append(bad('PARK-wake', key, 'moves a queue parked in %s to %s without calling %s: the parked runner (or the pool) never hears of it' % (s, s2, what), fn=fname))
     # latch: a wake that arrives while the job is still being polled (state Running) is remembered ...
     for fname, nice in ((WAKE_QUEUE, 'WakeQueue'), (WAKE_THREAD, 'WakeThread')):
         tr = {(s, s2) for (f, s, s2, role) in transitions(ctx) if f == fname}
@@ -576,6 +612,14 @@ def park_wake(ctx):
             out.append(ok('PARK-wake', key, 'thread::park() only after the queue was seen in WaitingForUnpark', fn=fname))
     if nparks < 1:
         out.append(undecided('PARK-wake', 'floor:park', 'no thread::park() site found in the protocol functions'))
+    # the protocol code never panics while it runs a queue: its `other => panic!(..)` arms must be infeasible for every state a waker can
+    # legitimately produce in the meantime
+    for fname, _, snaps in events_of(P, 'panic_T'):
+        owning = [(T, Pset) for (T, Pset, dbg) in snaps if T == 'H' and not dbg]
+        if owning:
+            states = sorted(set(s for (T, Pset) in owning for s in (Pset or ())))
+            out.append(bad('PARK-wake', '%s|no-panic-while-owning' % short(fname), 'a panic! in the protocol code is reachable while this function owns the queue, with the queue in %s: '
+                           'a state that the wakers legitimately produce is treated as impossible' % (', '.join(states) or 'an unknown state'), fn=fname))
     # reschedule_queue offers a WaitingForPoll queue to the pool, and the pool accepts it
     if any(r == 'TOK-pending' and f.endswith('reschedule_queue') for (r, f, m, l) in P.viol):
         out.append(bad('PARK-wake', 'reschedule_queue|WaitingForPoll', 'a queue parked for a polling task is not put on the schedule when it is woken', fn=RESCHED))
